@@ -26,6 +26,10 @@ type C19Job struct {
 	// Recycle: the goroutine keeps ONE unfolder for all its repetitions, created
 	// without a target and recycled with Reset + SetTarget before every document
 	Recycle bool `json:"recycle,omitempty"`
+	// Entry > 0 (codec jobs): use entry point Entry-1 instead of the one chosen by
+	// goroutine index (0 Parse, 1 NewBytesDecoder, 2 ParseReader, 3 Parser.Parse,
+	// 4 NewDecoder over short reads, polled again after the end)
+	Entry int `json:"entry,omitempty"`
 }
 
 type C19Case struct {
@@ -73,7 +77,11 @@ func c19Run(c *C19Case, j C19Job, types []reflect.Type, vals []reflect.Value, in
 		}
 		rec := &model.Recorder{}
 		po := guard(func() error {
-			switch []int{0, 1, 4, 2, 4, 3, 4, 4}[g%8] {
+			entry := []int{0, 1, 4, 2, 4, 3, 4, 4}[g%8]
+			if j.Entry > 0 {
+				entry = j.Entry - 1
+			}
+			switch entry {
 			case 4:
 				// pull decoder over a reader with short reads; Next is polled
 				// twice more after the end (a consumer waiting for more input)
@@ -368,12 +376,36 @@ func drawC19(t *rapid.T) any {
 	return c
 }
 
+// enumC19: fixed programs that construct one overlap directly instead of waiting
+// for the scheduler to sample it — per format, eight goroutines that ALL go through
+// the same entry point over the same shared bytes, three times each: eight reader
+// decoders reaching the end of their input and polling again at the same moment,
+// eight one-shot parsers, eight byte decoders ...
+func enumC19(emit func(c any) bool) {
+	stream := []model.Ev{
+		{K: model.KObjStart, L: -1}, {K: model.KKey, S: []byte("k")}, {K: model.KArrStart, L: 3}, {K: model.KInt, I: 1}, {K: model.KStr, S: []byte("abcdefghijklmnopqrstuvwxyz0123456789")}, {K: model.KNil}, {K: model.KArrEnd},
+		{K: model.KKey, S: []byte("b")}, {K: model.KBytes, S: []byte{1, 2, 3, 4, 5, 6, 7, 8, 9, 10, 11, 12}}, {K: model.KKey, S: []byte("f")}, {K: model.KF64, F: 0x400921fb54442d18}, {K: model.KObjEnd},
+	}
+	for _, format := range formatNames {
+		for entry := 0; entry <= 4; entry++ {
+			c := &C19Case{Streams: [][]model.Ev{stream}, Repeat: 3}
+			for g := 0; g < 8; g++ {
+				c.Jobs = append(c.Jobs, C19Job{Item: 0, Route: "codec:" + format, Entry: entry + 1})
+			}
+			if !emit(c) {
+				return
+			}
+		}
+	}
+}
+
 func init() {
 	register(&Property{
 		ID:            "C19",
-		Rule:          "programs of G goroutines (quick: 2..8, thorough: 2..16) released by a barrier, each running its own pipeline — Fold of a fold-side value (custom folders, inlined interfaces, named containers) into an encoder, Fold -> Unfold directly or through the json/ubjson/cborl encoder and parser, an unfold of a document whose members are mostly unknown to the target (the shared stream's value, skipped twice), or encoder -> parser over a shared event stream, where all goroutines parse the SAME byte slice (encoded once beforehand; entry points Parse, NewBytesDecoder, ParseReader, Parser.Parse, NewDecoder over short reads polled again after io.EOF, by goroutine index; the bytes must be unchanged afterwards) — 1..3 times on its OWN instances (half of the goroutines keep one unfolder, created without target and recycled with Reset + SetTarget before every document) over SHARED input values and SHARED freshly generated reflect.StructOf types (first use under contention) plus pool types incl. the self-referential ones; half of the programs take a FRESH member of a family of 144 self-referential generic types and let the goroutines use R, *R, []R and struct{P *R; S []R} at the same time (first use of a recursive type under contention); a third of the others use a type with a custom UnfoldState (Expander, stateful or processing user unfolder) as slice element, map value and struct field in all goroutines; the binary is built with -race (GORACE=halt_on_error): any race report, 'concurrent map' fatal error or crash is a violation; differential: every goroutine's outcome and value equal those of the same job run alone afterwards. Schedules are sampled by the Go scheduler (GOMAXPROCS 4, varied in the thorough tier), not enumerated. non-trivial = at least two goroutines share an item (type or stream) and route; distinct by case hash",
+		Rule:          "programs of G goroutines (quick: 2..8, thorough: 2..16) released by a barrier, each running its own pipeline — Fold of a fold-side value (custom folders, inlined interfaces, named containers) into an encoder, Fold -> Unfold directly or through the json/ubjson/cborl encoder and parser, an unfold of a document whose members are mostly unknown to the target (the shared stream's value, skipped twice), or encoder -> parser over a shared event stream, where all goroutines parse the SAME byte slice (encoded once beforehand; entry points Parse, NewBytesDecoder, ParseReader, Parser.Parse, NewDecoder over short reads polled again after io.EOF, by goroutine index; the bytes must be unchanged afterwards) — 1..3 times on its OWN instances (half of the goroutines keep one unfolder, created without target and recycled with Reset + SetTarget before every document) over SHARED input values and SHARED freshly generated reflect.StructOf types (first use under contention) plus pool types incl. the self-referential ones; half of the programs take a FRESH member of a family of 144 self-referential generic types and let the goroutines use R, *R, []R and struct{P *R; S []R} at the same time (first use of a recursive type under contention); a third of the others use a type with a custom UnfoldState (Expander, stateful or processing user unfolder) as slice element, map value and struct field in all goroutines; the binary is built with -race (GORACE=halt_on_error): any race report, 'concurrent map' fatal error or crash is a violation; differential: every goroutine's outcome and value equal those of the same job run alone afterwards. Schedules are sampled by the Go scheduler (GOMAXPROCS 4, varied in the thorough tier), not enumerated; a deterministic part adds 15 fixed programs (format x entry point) in which eight goroutines all use the SAME entry point over the same shared bytes three times (e.g. eight reader decoders reaching the end and polling again together). non-trivial = at least two goroutines share an item (type or stream) and route; distinct by case hash",
 		New:           func() any { return &C19Case{} },
 		Draw:          drawC19,
+		Enum:          enumC19,
 		Check:         checkC19,
 		AlwaysCurCase: true,
 	})
